@@ -46,7 +46,7 @@ Known(M, r) == r.s \in DOMAIN M.c /\ M.c[r.s].judged
 
 MonEv(M, r) ==
   IF r.e = "est" THEN [M EXCEPT !.c = (r.s :> NewConn(r.t0, r.t1)) @@ @]
-  ELSE IF r.e \notin {"open_begin", "open_ok", "open_fail", "drop_begin", "drop_done", "closed", "check"} THEN M
+  ELSE IF r.e \notin {"open_begin", "open_ok", "open_fail", "open_clogged", "drop_begin", "drop_done", "closed", "check"} THEN M
   ELSE IF ~Known(M, r) THEN M
   ELSE LET s == r.s c == M.c[s] IN
   \* a local open call that was accepted is activity at once and the substream "is being opened" from then
@@ -59,6 +59,9 @@ MonEv(M, r) ==
                              ELSE [M EXCEPT !.c[s].opening = @ - 1, !.c[s].held = @ + 1]
     [] r.e = "open_fail"  -> IF r.rem THEN [M EXCEPT !.c[s].ropening = @ - 1, !.c[s].idleSince = Max2(@, r.t)]
                              ELSE [M EXCEPT !.c[s].opening = @ - 1, !.c[s].idleSince = Max2(@, r.t)]
+    \* an open call refused because the command channel is full: not an accepted open (no NotBefore
+    \* obligation), but the code may restart its timer, so the Eventually clock restarts
+    [] r.e = "open_clogged" -> [M EXCEPT !.c[s].idleSince = Max2(@, r.t)]
     \* between drop_begin and drop_done the substream may or may not exist any more
     [] r.e = "drop_begin" -> [M EXCEPT !.c[s].held = @ - 1, !.c[s].dropping = @ + 1,
                                        !.c[s].lastAct = IF M.strict THEN Max2(@, r.t) ELSE @]
@@ -82,4 +85,66 @@ MonEv(M, r) ==
 
 \* report once per connection, keep judging the others
 Forgive(M) == IF M.bad = "" THEN M ELSE [M EXCEPT !.bad = "", !.bads = "", !.c[M.bads].judged = FALSE]
+-----------------------------------------------------------------------------
+(***************************************************************************)
+(* Part 2 - unit level: handle discipline of the real TransportService     *)
+(* (driven through litep2p::verif::svc::ServiceHarness, harness bin        *)
+(* `kasvc`; time is scripted: an `expire` step lets the keep-alive timeout *)
+(* of one (protocol, connection) pair elapse and polls the service).       *)
+(* Every recorded step carries the projection after the step:              *)
+(*   proj = sequence of [k |-> "<protocol>:<connection>", act |-> the      *)
+(*          protocol's handle is Active, trk |-> the tracker has an entry] *)
+(* Rules (the idle mechanism can only close a connection once every        *)
+(* protocol released its handle, so "idle => eventually closed" needs):    *)
+(*  - once the keep-alive of a connection expired in protocol q while q    *)
+(*    was not opening a keep-alive substream on it, and q made no accepted *)
+(*    open and saw no opened substream since, q's handle is Inactive at    *)
+(*    the latest after the next expiry;                                    *)
+(*  - busy ones are kept: an accepted open / an opened substream of a      *)
+(*    keep-alive protocol leaves the handle Active, and a handle is only   *)
+(*    released by an expiry (or the end of the connection);                *)
+(*  - at the end (everything answered, two expiry rounds) nothing holds    *)
+(*    the connection: its command channel reports "all senders gone".      *)
+(***************************************************************************)
+Get(f, k, d) == IF k \in DOMAIN f THEN f[k] ELSE d
+Put(f, k, v) == (k :> v) @@ f
+
+SvcInit == [act |-> <<>>, opening |-> <<>>, strike |-> <<>>, taint |-> {}, bad |-> "", badk |-> ""]
+
+SvcFail(M, k, why) == IF M.bad = "" /\ k \notin M.taint THEN [M EXCEPT !.bad = why, !.badk = k] ELSE M
+
+ProjAct(P) == [k \in {P[i].k : i \in 1..Len(P)} |-> \E i \in 1..Len(P) : P[i].k = k /\ P[i].act]
+
+SvcEv(M, r) ==
+  IF r.e # "u" THEN M
+  ELSE
+  LET now == ProjAct(r.proj)
+      \* a handle that was Active before the step and is Inactive after it
+      released == {k \in DOMAIN M.act \cap DOMAIN now : M.act[k] /\ ~now[k]}
+      M0 == IF r.a \notin {"expire", "close", "final"} /\ released # {}
+              THEN SvcFail(M, CHOOSE k \in released : TRUE, "handle released without a keep-alive expiry")
+              ELSE M
+      k == r.key
+      isAct == k \in DOMAIN now /\ now[k]
+      M1 ==
+        CASE r.a = "open" /\ r.ok ->
+               LET X == [M0 EXCEPT !.opening = Put(@, k, Get(@, k, 0) + 1), !.strike = Put(@, k, FALSE)] IN
+               IF r.ka /\ ~isAct THEN SvcFail(X, k, "accepted open of a keep-alive protocol left its handle Inactive") ELSE X
+          [] r.a \in {"opened", "inbound"} /\ r.ok ->
+               LET X == [M0 EXCEPT !.opening = IF r.a = "opened" THEN Put(@, k, Get(@, k, 1) - 1) ELSE @,
+                                   !.strike = IF r.ka THEN Put(@, k, FALSE) ELSE @] IN
+               IF r.ka /\ ~isAct THEN SvcFail(X, k, "opened substream of a keep-alive protocol left its handle Inactive") ELSE X
+          [] r.a = "failed" /\ r.ok -> [M0 EXCEPT !.opening = Put(@, k, Get(@, k, 1) - 1)]
+          [] r.a = "expire" ->
+               IF Get(M0.opening, k, 0) > 0 THEN M0
+               ELSE IF ~isAct THEN [M0 EXCEPT !.strike = Put(@, k, FALSE)]
+               ELSE IF Get(M0.strike, k, FALSE)
+                 THEN SvcFail(M0, k, "handle still Active after two keep-alive expiries without keep-alive activity")
+               ELSE [M0 EXCEPT !.strike = Put(@, k, TRUE)]
+          [] r.a = "final" ->
+               IF ~r.closed THEN SvcFail(M0, k, "idle connection still held open after everything was released") ELSE M0
+          [] OTHER -> M0
+  IN [M1 EXCEPT !.act = now]
+
+SvcForgive(M) == IF M.bad = "" THEN M ELSE [M EXCEPT !.bad = "", !.badk = "", !.taint = @ \cup {M.badk}]
 =============================================================================
